@@ -763,10 +763,15 @@ impl<E: Effect> Executor<E> {
         // Store the result in the process's awaiting map (retaining as it enters storage).
         if self.get_process(awaiter).is_some() {
             self.retain(&injected_result);
-            self.get_process_mut(awaiter)
+            let previous = self
+                .get_process_mut(awaiter)
                 .unwrap()
                 .awaiting
                 .insert(awaited, Some(injected_result));
+            // An earlier result stored for the same target leaves the map: release it.
+            if let Some(Some(previous)) = &previous {
+                self.release(previous);
+            }
         }
 
         // Re-queue awaiter to retry its Select instruction
@@ -2220,8 +2225,16 @@ impl<E: Effect> Executor<E> {
 
         // If we found PIDs, register awaits before processing sources
         if !pid_targets.is_empty() {
+            // Re-awaiting a target drops any result stored for it by an earlier select: release
+            // it as it leaves the map.
+            let mut stale = Vec::new();
             for target in &pid_targets {
-                process.awaiting.insert(*target, None);
+                if let Some(Some(previous)) = process.awaiting.insert(*target, None) {
+                    stale.push(previous);
+                }
+            }
+            for previous in &stale {
+                self.release(previous);
             }
 
             self.mark_selecting(pid);
@@ -2563,9 +2576,14 @@ impl<E: Effect> Executor<E> {
 
         // The message clone enters the select_state.receiving slot.
         self.retain(&message);
+        let mut displaced = None;
         if let Some(state) = &mut proc.select_state {
-            state.receiving = Some((receive_idx, message.clone()));
+            displaced = state.receiving.replace((receive_idx, message.clone()));
             state.cursors[receive_idx] = msg_idx;
+        }
+        // A message still held for another receiver's filter leaves the slot: release it.
+        if let Some((_, previous)) = &displaced {
+            self.release(previous);
         }
 
         // The message (parameter) and source (the receive function) enter the call's stack frame.
